@@ -126,6 +126,13 @@ func checkCodecPair(id1, gen1, id2, gen2 uint32) error {
 	}
 	e1, raw1 := mk(id1, gen1)
 	e2, raw2 := mk(id2, gen2)
+	// decoding is a pure function: two goroutines decoding different handles at the same time (separate worlds restoring
+	// snapshots in parallel) get their own handles back (every 16th pair, so that the check stays cheap)
+	if (id1^gen2)%16 == 0 {
+		if err := parallelDecode(e1, e2); err != nil {
+			return err
+		}
+	}
 	b1, _ := e1.MarshalBinary()
 	j1, _ := json.Marshal(e1)
 	a1, _ := e1.AppendBinary(nil)
@@ -220,4 +227,40 @@ func FuzzEntityJSON(f *testing.F) {
 			t.Fatalf("VIOLATION-CASE property=C17 sig=codec|json\n%q decodes to %v, re-encodes to %s, decodes to %v (%v)", data, e, out, e2, err)
 		}
 	})
+}
+
+func parallelDecode(e1, e2 ecs.Entity) error {
+	j1, _ := json.Marshal(e1)
+	j2, _ := json.Marshal(e2)
+	b1, _ := e1.MarshalBinary()
+	b2, _ := e2.MarshalBinary()
+	errs := make(chan error, 2)
+	run := func(want ecs.Entity, js, bin []byte) {
+		for i := 0; i < 300; i++ {
+			var e ecs.Entity
+			if err := json.Unmarshal(js, &e); err != nil || e != want {
+				errs <- fmt.Errorf("concurrent json.Unmarshal(%s) gives %v (err %v), want %v", js, e, err, want)
+				return
+			}
+			var f ecs.Entity
+			if err := f.UnmarshalBinary(bin); err != nil || f != want {
+				errs <- fmt.Errorf("concurrent UnmarshalBinary(%x) gives %v (err %v), want %v", bin, f, err, want)
+				return
+			}
+			if out, err := json.Marshal(want); err != nil || !bytes.Equal(out, js) {
+				errs <- fmt.Errorf("concurrent json.Marshal(%v) gives %s (err %v), want %s", want, out, err, js)
+				return
+			}
+		}
+		errs <- nil
+	}
+	go run(e1, j1, b1)
+	go run(e2, j2, b2)
+	var first error
+	for i := 0; i < 2; i++ {
+		if err := <-errs; err != nil && first == nil {
+			first = err
+		}
+	}
+	return first
 }
